@@ -3,6 +3,7 @@ package ast
 import (
 	"bytes"
 	"fmt"
+	"sort"
 	"strings"
 
 	"github.com/risor-io/risor/internal/tmpl"
@@ -267,11 +268,25 @@ func (m *Map) Literal() string { return m.token.Literal }
 
 func (m *Map) Items() map[Expression]Expression { return m.items }
 
+// OrderedKeys returns the keys of the map literal in the order in which they
+// appear in the source text. Iterating over Items directly visits them in a
+// different order on every run.
+func (m *Map) OrderedKeys() []Expression {
+	keys := make([]Expression, 0, len(m.items))
+	for key := range m.items {
+		keys = append(keys, key)
+	}
+	sort.SliceStable(keys, func(i, j int) bool {
+		return keys[i].Token().StartPosition.Char < keys[j].Token().StartPosition.Char
+	})
+	return keys
+}
+
 func (m *Map) String() string {
 	var out bytes.Buffer
 	pairs := make([]string, 0)
-	for key, value := range m.items {
-		pairs = append(pairs, key.String()+":"+value.String())
+	for _, key := range m.OrderedKeys() {
+		pairs = append(pairs, key.String()+":"+m.items[key].String())
 	}
 	out.WriteString("{")
 	out.WriteString(strings.Join(pairs, ", "))
